@@ -27,7 +27,11 @@ pub const VW: usize = 96;
 pub const VW: usize = 48;
 #[cfg(all(feature = "vw24", not(any(feature = "vw48", feature = "vw96", feature = "vw128"))))]
 pub const VW: usize = 24;
-#[cfg(not(any(feature = "vw24", feature = "vw48", feature = "vw96", feature = "vw128")))]
+/// vw4: for families whose stored values are at most 4 words and whose slot keys are symbolic (every write is a
+/// multiplexer over all slots: the cost is proportional to VW)
+#[cfg(all(feature = "vw4", not(any(feature = "vw24", feature = "vw48", feature = "vw96", feature = "vw128"))))]
+pub const VW: usize = 4;
+#[cfg(not(any(feature = "vw4", feature = "vw24", feature = "vw48", feature = "vw96", feature = "vw128")))]
 pub const VW: usize = 12;
 
 /// capacity of Vec / Map (cap21 = one more than the documented maxima of 20 of the RWA registries, cap100 = one
@@ -355,6 +359,12 @@ pub fn assume(c: bool) {
 
 // ---------------------------------------------------------------- storage
 fn key_eq(a: &[u64; KW], b: &[u64; KW]) -> bool {
+    // feature `getmux`: keys of different kinds (first word = variant / type word, concrete in most harnesses) are
+    // told apart before the word loop; same result
+    #[cfg(feature = "getmux")]
+    if a[0] != b[0] {
+        return false;
+    }
     let mut i = 0;
     let mut r = true;
     while i < KW {
@@ -388,6 +398,7 @@ fn hit(s: &Slot, dur: u8, k: &[u64; KW]) -> bool {
     s.claimed && s.dur == dur && key_eq(&s.key, k)
 }
 
+#[cfg(not(feature = "getmux"))]
 pub fn st_has(dur: u8, key: &[u64; KW]) -> bool {
     let w = world();
     let seq = w.seq;
@@ -414,6 +425,7 @@ pub fn st_get<V: Flat>(dur: u8, key: &[u64; KW]) -> Option<V> {
     }
     None
 }
+#[cfg(not(feature = "getmux"))]
 pub fn st_set(dur: u8, key: &[u64; KW], val: &[u64; VW]) {
     let w = world();
     let seq = w.seq;
@@ -446,6 +458,7 @@ pub fn st_set(dur: u8, key: &[u64; KW], val: &[u64; VW]) {
     }
     overflow()
 }
+#[cfg(not(feature = "getmux"))]
 pub fn st_remove(dur: u8, key: &[u64; KW]) {
     let w = world();
     let mut i = 0;
@@ -458,6 +471,7 @@ pub fn st_remove(dur: u8, key: &[u64; KW]) {
     }
 }
 /// soroban-env-host 25.0.1 `Storage::extend_ttl` semantics
+#[cfg(not(feature = "getmux"))]
 pub fn st_extend_ttl(dur: u8, key: &[u64; KW], threshold: u32, extend_to: u32) {
     if threshold > extend_to {
         trap_storage()
@@ -870,4 +884,115 @@ pub fn hash_oracle(kind: u8, len: u32, inp: &[u64; HW]) -> [u64; 4] {
     }
     w.n_hashes += 1;
     out
+}
+
+// ---------------------------------------------------------------- feature `getmux`: single-exit storage primitives
+// Same results as the versions above (first matching slot; a write without a match claims the first unclaimed
+// slot; no room = overflow). The scans have NO early `return`: with symbolic slot keys every iteration of the
+// early-return versions is a separate exit whose state is merged at the end of the function (cost quadratic in
+// NS per access, measured: 33 k of 470 k SSA steps of a two-mint history on one closing brace); here each slot is
+// updated once under its own guard.
+#[cfg(feature = "getmux")]
+pub fn st_has(dur: u8, key: &[u64; KW]) -> bool {
+    let w = world();
+    let seq = w.seq;
+    let mut found = false;
+    let mut r = false;
+    let mut i = 0;
+    while i < NS {
+        let s = &w.slots[i];
+        if !found && hit(s, dur, key) {
+            found = true;
+            r = live(s, seq);
+        }
+        i += 1;
+    }
+    r
+}
+#[cfg(feature = "getmux")]
+pub fn st_set(dur: u8, key: &[u64; KW], val: &[u64; VW]) {
+    let w = world();
+    let seq = w.seq;
+    let fresh = match dur {
+        1 => seq.saturating_add(w.min_temp_ttl).saturating_sub(1),
+        _ => seq.saturating_add(w.min_pers_ttl).saturating_sub(1),
+    };
+    let mut done = false;
+    let mut i = 0;
+    while i < NS {
+        if !done && hit(&w.slots[i], dur, key) {
+            let was_live = live(&w.slots[i], seq);
+            let s = &mut w.slots[i];
+            s.val = *val;
+            if !was_live {
+                s.live_until = fresh;
+            }
+            s.present = true;
+            done = true;
+        }
+        i += 1;
+    }
+    let mut j = 0;
+    while j < NS {
+        if !done && !w.slots[j].claimed {
+            w.slots[j] =
+                Slot { claimed: true, present: true, dur, key: *key, val: *val, live_until: fresh };
+            done = true;
+        }
+        j += 1;
+    }
+    if !done {
+        overflow()
+    }
+}
+#[cfg(feature = "getmux")]
+pub fn st_remove(dur: u8, key: &[u64; KW]) {
+    let w = world();
+    let mut done = false;
+    let mut i = 0;
+    while i < NS {
+        if !done && hit(&w.slots[i], dur, key) {
+            w.slots[i].present = false;
+            done = true;
+        }
+        i += 1;
+    }
+}
+#[cfg(feature = "getmux")]
+pub fn st_extend_ttl(dur: u8, key: &[u64; KW], threshold: u32, extend_to: u32) {
+    if threshold > extend_to {
+        trap_storage()
+    }
+    let w = world();
+    let seq = w.seq;
+    let max_ext = w.max_ttl.saturating_sub(1);
+    let mut ext = extend_to;
+    if ext > max_ext {
+        if dur == 1 {
+            trap_storage()
+        }
+        ext = max_ext;
+    }
+    let mut found = false;
+    let mut i = 0;
+    while i < NS {
+        if !found && hit(&w.slots[i], dur, key) {
+            found = true;
+            if !live(&w.slots[i], seq) {
+                trap_storage()
+            }
+            let s = &mut w.slots[i];
+            let new_live = match seq.checked_add(ext) {
+                Some(x) => x,
+                None => trap_storage(),
+            };
+            if new_live > s.live_until && s.live_until.saturating_sub(seq) <= threshold {
+                s.live_until = new_live;
+            }
+        }
+        i += 1;
+    }
+    if !found {
+        trap_storage()
+    }
 }
